@@ -45,7 +45,7 @@ CHECKS = {
  "C09": ("model_checking", "exhaustive enumeration of drain ranges x bound shapes x consumption scripts on every reachable state",
          "Every reachable state x every range (every bound form) x every consumption script then drop: yields, len, resulting contents in order, un-yielded elements destroyed exactly once, view predicate on the result, clean final drop; all O(N^3) hole/tail/array-end configurations of the back-fill are enumerated.", "§4 C09"),
  "C10": ("fault_enumeration", "exhaustive enumeration of drain scripts with mem::forget after every prefix",
-         "Every layout x every range x every script over {next,next_back} with mem::forget(drain) after every prefix: buffer afterwards holds live, distinct elements of the original contents disjoint from those handed out; follow-up battery vs. model; final drop destroys nothing twice.", "§4 C10"),
+         "Every layout x every range x every script over {next,next_back} with mem::forget(drain) after every prefix: buffer afterwards holds live, distinct elements of the original contents disjoint from those handed out; follow-up battery vs. model; final drop destroys nothing twice. Also every sequence of <= 2 derived iterator calls (nth, nth_back, find, try_fold, ...) on the drain before the leak.", "§4 C10"),
 }
 
 NOT_APPLICABLE = {
